@@ -1,8 +1,9 @@
 
-// ===== appended by /verif (cfg(kani) only): contract harnesses for eq / lt (C04) =====
+// ===== appended by /verif (cfg(kani) / cfg(besok_jsonpath_rust_verif) only): contract harnesses for eq / lt (C04) =====
 // Loop-free over the full machine domain (all i64, all finite f64): a pass is a complete proof.
-#[cfg(kani)]
-mod verif_kani_cmp {
+#[cfg(any(kani, besok_jsonpath_rust_verif))]
+#[allow(dead_code, unused_imports)]
+pub(crate) mod verif_kani_cmp {
     use super::*;
     use crate::query::verif_k::*;
 
@@ -32,56 +33,56 @@ mod verif_kani_cmp {
     // contracts eq.numbers / lt.numbers: on two numbers `==` is mathematical equality and `<` the
     // mathematical order, whatever the representation.  Split by representation to keep each query small;
     // operands of the same representation additionally range over all Value / Ref shapes.
-    #[kani::proof]
-    #[kani::unwind(4)]
-    fn num_int_int() {
+    #[cfg_attr(kani, kani::proof)]
+    #[cfg_attr(kani, kani::unwind(4))]
+    pub(crate) fn num_int_int() {
         let root = S::Null;
         let (a, b) = (S::Int(kani::any()), S::Int(kani::any()));
         assert!(eq(operand(&a, &root), operand(&b, &root)) == is(math_cmp(&a, &b), Ord3::Equal));
         assert!(lt(operand(&a, &root), operand(&b, &root)) == is(math_cmp(&a, &b), Ord3::Less));
     }
-    #[kani::proof]
-    #[kani::unwind(4)]
-    fn num_float_float() {
+    #[cfg_attr(kani, kani::proof)]
+    #[cfg_attr(kani, kani::unwind(4))]
+    pub(crate) fn num_float_float() {
         let root = S::Null;
         let (a, b) = (S::Float(any_float()), S::Float(any_float()));
         assert!(eq(operand(&a, &root), operand(&b, &root)) == is(math_cmp(&a, &b), Ord3::Equal));
         assert!(lt(operand(&a, &root), operand(&b, &root)) == is(math_cmp(&a, &b), Ord3::Less));
     }
-    #[kani::proof]
-    #[kani::unwind(4)]
-    fn eq_int_float() {
+    #[cfg_attr(kani, kani::proof)]
+    #[cfg_attr(kani, kani::unwind(4))]
+    pub(crate) fn eq_int_float() {
         let root = S::Null;
         let (a, b) = (S::Int(kani::any()), S::Float(any_float()));
         kani::cover!(math_cmp(&a, &b) == Some(Ord3::Equal));
         assert!(eq(val(a, &root), val(b, &root)) == is(math_cmp(&a, &b), Ord3::Equal));
     }
-    #[kani::proof]
-    #[kani::unwind(4)]
-    fn eq_float_int() {
+    #[cfg_attr(kani, kani::proof)]
+    #[cfg_attr(kani, kani::unwind(4))]
+    pub(crate) fn eq_float_int() {
         let root = S::Null;
         let (a, b) = (S::Float(any_float()), S::Int(kani::any()));
         assert!(eq(val(a, &root), val(b, &root)) == is(math_cmp(&a, &b), Ord3::Equal));
     }
-    #[kani::proof]
-    #[kani::unwind(4)]
-    fn lt_int_float() {
+    #[cfg_attr(kani, kani::proof)]
+    #[cfg_attr(kani, kani::unwind(4))]
+    pub(crate) fn lt_int_float() {
         let root = S::Null;
         let (a, b) = (S::Int(kani::any()), S::Float(any_float()));
         kani::cover!(math_cmp(&a, &b) == Some(Ord3::Less));
         assert!(lt(val(a, &root), val(b, &root)) == is(math_cmp(&a, &b), Ord3::Less));
     }
-    #[kani::proof]
-    #[kani::unwind(4)]
-    fn lt_float_int() {
+    #[cfg_attr(kani, kani::proof)]
+    #[cfg_attr(kani, kani::unwind(4))]
+    pub(crate) fn lt_float_int() {
         let root = S::Null;
         let (a, b) = (S::Float(any_float()), S::Int(kani::any()));
         assert!(lt(val(a, &root), val(b, &root)) == is(math_cmp(&a, &b), Ord3::Less));
     }
     // mixed representations through node references and in both argument orders of the dispatch
-    #[kani::proof]
-    #[kani::unwind(4)]
-    fn mixed_shapes_small() {
+    #[cfg_attr(kani, kani::proof)]
+    #[cfg_attr(kani, kani::unwind(4))]
+    pub(crate) fn mixed_shapes_small() {
         let root = S::Null;
         let i: i64 = kani::any();
         kani::assume(-4 <= i && i <= 4);
@@ -94,9 +95,9 @@ mod verif_kani_cmp {
     }
     // contract eq.types / lt.types: never equal or ordered across types; null == null; booleans by value;
     // `<` only within numbers or within strings
-    #[kani::proof]
-    #[kani::unwind(4)]
-    fn cross_types() {
+    #[cfg_attr(kani, kani::proof)]
+    #[cfg_attr(kani, kani::unwind(4))]
+    pub(crate) fn cross_types() {
         let root = S::Null;
         let (a, b) = (any_scalar(), any_scalar());
         let e = eq(operand(&a, &root), operand(&b, &root));
@@ -117,9 +118,9 @@ mod verif_kani_cmp {
         }
     }
     // contract eq.nothing / lt.nothing: an empty result equals an empty result, never a value; never ordered
-    #[kani::proof]
-    #[kani::unwind(4)]
-    fn nothing() {
+    #[cfg_attr(kani, kani::proof)]
+    #[cfg_attr(kani, kani::unwind(4))]
+    pub(crate) fn nothing() {
         let root = S::Null;
         let a = any_scalar();
         let n = || State::data(&root, Data::<S>::Nothing);
@@ -131,9 +132,9 @@ mod verif_kani_cmp {
         assert!(!lt(operand(&a, &root), n()));
     }
     // C15: the same contract through a second faithful view (integers visible through as_i64 only)
-    #[kani::proof]
-    #[kani::unwind(4)]
-    fn numbers_second_view() {
+    #[cfg_attr(kani, kani::proof)]
+    #[cfg_attr(kani, kani::unwind(4))]
+    pub(crate) fn numbers_second_view() {
         let root = S2(S::Null);
         let (a, b) = (any_number(), any_number());
         let (a2, b2) = (S2(a), S2(b));
@@ -142,11 +143,30 @@ mod verif_kani_cmp {
         assert!(lt(st(a2), st(b2)) == (math_cmp(&a, &b) == Some(Ord3::Less)));
     }
     // vacuity canary: this harness MUST FAIL (a false claim about eq)
-    #[kani::proof]
-    #[kani::unwind(4)]
-    fn canary_must_fail() {
+    #[cfg_attr(kani, kani::proof)]
+    #[cfg_attr(kani, kani::unwind(4))]
+    pub(crate) fn canary_must_fail() {
         let root = S::Null;
         let (a, b) = (any_number(), any_number());
         assert!(!eq(operand(&a, &root), operand(&b, &root)));
+    }
+    /// native replay dispatcher (see kani shim in verif_k)
+    #[cfg(not(kani))]
+    pub(crate) fn replay(name: &str) -> bool {
+        match name {
+            "num_int_int" => num_int_int(),
+            "num_float_float" => num_float_float(),
+            "eq_int_float" => eq_int_float(),
+            "eq_float_int" => eq_float_int(),
+            "lt_int_float" => lt_int_float(),
+            "lt_float_int" => lt_float_int(),
+            "mixed_shapes_small" => mixed_shapes_small(),
+            "cross_types" => cross_types(),
+            "nothing" => nothing(),
+            "numbers_second_view" => numbers_second_view(),
+            "canary_must_fail" => canary_must_fail(),
+            _ => return false,
+        }
+        true
     }
 }
